@@ -3,58 +3,94 @@ non-zero, partly random link latencies and some packet loss; short election time
 happen in a few simulated seconds; 2–5 clients submitting set/get/delete/cas commands on overlapping string
 keys (to the node they believe is the leader, or to a random node), each racing the commit future against a
 timeout; a partition window (leader isolated / minority split / asymmetric), a crash or pause window on a
-node (library fault schedule), so re-elections, log repair and step-downs occur."""
+node (library fault schedule), so re-elections, log repair and step-downs occur.
+
+Widened configuration space: clusters of 1, 2, 3, 4, 5 and 7 nodes; peers given to the constructor (`peers=`) or by
+`set_peers`; the default state machine; election timeouts / heartbeat interval / link latency / client timeout from a
+boundary palette with overlapping ranges (heartbeat interval longer than the election timeout, link latency longer
+than the election timeout, election timeouts of 8–50 ms = election storms, min == max, client timeout shorter than one
+network hop); lossless, zero-latency, 50 % and 100 % lossy links; 0–3 partition windows and 0–2 crash / pause windows
+on instants that lose a nanosecond in `Instant.from_seconds`, windows that outlive the run; light load, bursts of
+same-instant submissions and sustained heavy load (log of a few thousand entries); an occasional long run."""
 from __future__ import annotations
 
 import random
 
-from hv.scenarios.base import T, seed_all, stats_of, sub_seed
+from hv.scenarios.base import T, dur_ms, seed_all, stats_of, sub_seed
 
 NAME = "raft"
 MODEL = "C11"
-COMPONENTS = ["RaftNode", "Log", "LogEntry", "KVStateMachine", "Network", "NetworkLink", "Partition",
+COMPONENTS = ["RaftNode", "RaftState", "Log", "LogEntry", "KVStateMachine", "Network", "NetworkLink", "Partition",
               "FaultSchedule", "CrashNode", "PauseNode", "NetworkPartition", "SimFuture", "Source",
               "datacenter_network", "ConstantLatency", "ExponentialLatency"]
 
 
 def gen_cfg(rng):
-    n = rng.choice([3, 3, 5])
-    end = rng.choice([3.0, 4.0, 6.0])
+    n = rng.choice([1, 2, 3, 3, 3, 4, 5, 5, 7])
+    end = rng.choice([3.0, 4.0, 6.0]) if rng.random() > 0.1 else rng.choice([8.0, 10.0])
     end_ms = int(end * 1000)
-    et_min = rng.choice([100, 150, 250])
+    r = rng.random()
+    if r < 0.6:
+        et_min = dur_ms(rng, 50, 300)
+    elif r < 0.8:
+        et_min = dur_ms(rng, 8 if end <= 6 and n <= 5 else 30, 50)      # election storms
+    else:
+        et_min = dur_ms(rng, 300, 1500)
+    et_max = et_min if rng.random() < 0.15 else dur_ms(rng, et_min, et_min + rng.choice([30, 150, 300, 600]))
+    if rng.random() < 0.6:
+        hb = dur_ms(rng, min(5 if end <= 6 else 15, et_min), et_min)     # the usual order: heartbeat < election timeout
+    else:
+        hb = dur_ms(rng, et_min, 3 * et_max)                             # heartbeat interval beyond the election timeout
     parts = []
-    for _ in range(rng.randint(1, 2)):
-        a = rng.randint(600, end_ms - 1200)
-        parts.append({"start": a, "end": a + rng.randint(300, 1200),
+    for _ in range(rng.choice([0, 1, 1, 2, 2, 3])):
+        a = dur_ms(rng, 200, end_ms - 600)
+        parts.append({"start": a, "end": dur_ms(rng, a + 1, min(a + 1800, end_ms + 500)),
                       "who": rng.choice(["leader", "leader", "minority", "node0"]),
                       "asym": rng.random() < 0.25, "via": rng.choice(["admin", "fault"])})
-    crash = None
-    if rng.random() < 0.7:
-        a = rng.randint(500, end_ms - 1000)
-        crash = {"node": rng.randint(0, n - 1), "start": a, "end": a + rng.randint(200, 900),
-                 "kind": rng.choice(["crash", "pause", "crash-forever"])}
+
+    def crash():
+        a = dur_ms(rng, 100, end_ms - 500)
+        return {"node": rng.randint(0, n - 1), "start": a, "end": dur_ms(rng, a + 1, min(a + 1500, end_ms + 500)),
+                "kind": rng.choice(["crash", "pause", "crash-forever"])}
+
+    heavy = rng.random() < 0.2
+    clients = [{"rate": rng.choice([5, 10, 20, 40]) if not heavy else rng.choice([100, 200, 400]),
+                "poisson": rng.random() < 0.5,
+                "policy": rng.choice(["leader", "leader", "random", "known"]),
+                "burst": rng.choice([1, 1, 1, 2, 5, 20]) if not heavy else 1}
+               for _ in range(rng.randint(2, 5) if not heavy else rng.randint(1, 2))]
+    budget = 2500 if end <= 6 else 1500
+    while sum(c["rate"] * c["burst"] for c in clients) * end > budget:
+        c = max(clients, key=lambda c: c["rate"] * c["burst"])
+        if c["burst"] > 1:
+            c["burst"] //= 2
+        elif c["rate"] > 5:
+            c["rate"] = max(5, c["rate"] // 2)
+        else:
+            break
     return {
         "n": n,
         "end": end,
         "et_min_ms": et_min,
-        "et_max_ms": et_min + rng.choice([0, 30, 50, 150, 150, 300, 300, 300]),
-        "hb_ms": rng.choice([20, 50, 80]),
-        "link": rng.choice(["datacenter", "const", "exp", "exp-lossy"]),
-        "lat_ms": rng.randint(1, 25),
-        "loss": rng.choice([0.02, 0.1]),
-        "stagger_ms": rng.choice([0, 0, 1, 7]),     # 0: every node starts its election timer at t=0
-        "clients": [{"rate": rng.choice([5, 10, 20, 40]), "poisson": rng.random() < 0.5,
-                     "policy": rng.choice(["leader", "leader", "random", "known"])}
-                    for _ in range(rng.randint(2, 5))],
-        "timeout_ms": rng.choice([60, 150, 400]),
-        "keys": rng.randint(2, 6),
+        "et_max_ms": et_max,
+        "hb_ms": hb,
+        "peers_via": rng.choice(["set", "set", "ctor"]),
+        "default_sm": rng.random() < 0.2,          # node 0 is built without `state_machine=`
+        "link": rng.choice(["datacenter", "const", "exp", "exp-lossy", "zero", "const-lossy"]),
+        "lat_ms": dur_ms(rng, 0.1, 25) if rng.random() < 0.7 else dur_ms(rng, 25, 800),
+        "loss": rng.choice([0.0, 0.02, 0.1, 0.5, 1.0]),
+        "stagger_ms": dur_ms(rng, 1, 700, zero=True) if rng.random() < 0.5 else 0,     # 0: all timers start at t=0
+        "clients": clients,
+        "timeout_ms": dur_ms(rng, 1, 1500),
+        "keys": rng.randint(1, 6) if rng.random() < 0.85 else 50,
         "parts": parts,
-        "crash": crash,
+        "crash": crash() if rng.random() < 0.7 else None,
+        "crash2": crash() if rng.random() < 0.25 else None,
     }
 
 
 def build(cfg, seed):
-    from happysimulator.components.consensus import RaftNode
+    from happysimulator.components.consensus import RaftNode, RaftState
     from happysimulator.components.consensus.raft_state_machine import KVStateMachine
     from happysimulator.components.network import Network, NetworkLink, datacenter_network
     from happysimulator.core.entity import Entity
@@ -70,11 +106,21 @@ def build(cfg, seed):
     n, end = cfg["n"], cfg["end"]
     net = Network(name="raft-net")
     machines = [KVStateMachine() for _ in range(n)]
-    nodes = [RaftNode(name=f"raft-{i}", network=net, state_machine=machines[i],
-                      election_timeout_min=cfg["et_min_ms"] / 1000.0,
-                      election_timeout_max=cfg["et_max_ms"] / 1000.0,
-                      heartbeat_interval=cfg["hb_ms"] / 1000.0) for i in range(n)]
-    for nd in nodes:
+    timing = dict(election_timeout_min=cfg["et_min_ms"] / 1000.0, election_timeout_max=cfg["et_max_ms"] / 1000.0,
+                  heartbeat_interval=cfg["hb_ms"] / 1000.0)
+    nodes = []
+    for i in range(n):
+        kw = dict(timing)
+        if not (cfg.get("default_sm") and i == 0):
+            kw["state_machine"] = machines[i]
+        else:
+            machines[i] = None              # the node's own default state machine (not observable through the API)
+        if cfg.get("peers_via", "set") == "ctor" and i == n - 1:
+            kw["peers"] = list(nodes)       # the last node learns its peers through the constructor
+        nodes.append(RaftNode(name=f"raft-{i}", network=net, **kw))
+    for i, nd in enumerate(nodes):
+        if cfg.get("peers_via", "set") == "ctor" and i == n - 1:
+            continue
         nd.set_peers([p for p in nodes if p is not nd])
 
     def mk_link(name):
@@ -86,6 +132,10 @@ def build(cfg, seed):
             return NetworkLink(name=name, latency=ConstantLatency(lat))
         if k == "exp":
             return NetworkLink(name=name, latency=ExponentialLatency(lat))
+        if k == "zero":
+            return NetworkLink(name=name, latency=ConstantLatency(0.0))
+        if k == "const-lossy":
+            return NetworkLink(name=name, latency=ConstantLatency(lat), packet_loss_rate=cfg["loss"])
         return NetworkLink(name=name, latency=ExponentialLatency(lat), packet_loss_rate=cfg["loss"],
                            jitter=ConstantLatency(0.001))
 
@@ -94,9 +144,9 @@ def build(cfg, seed):
             net.add_bidirectional_link(a, b, mk_link(f"l-{a.name}-{b.name}"))
 
     class Client(Entity):
-        def __init__(self, i, policy):
+        def __init__(self, i, policy, burst=1):
             super().__init__(f"client-{i}")
-            self.i, self.policy = i, policy
+            self.i, self.policy, self.burst = i, policy, burst
             self.rng = random.Random(sub_seed(seed, "client", i))
             self.n = 0
             self.ok = self.timed_out = self.no_leader = 0
@@ -115,6 +165,10 @@ def build(cfg, seed):
             return self.rng.choice(nodes)
 
         def handle_event(self, event):
+            k = event.context.get("burst_left", self.burst - 1) if self.burst > 1 else 0
+            if k > 0:
+                # the remaining submissions of this burst start at the same instant, each in its own process
+                yield 0.0, [Event(time=self.now, event_type="Tick", target=self, context={"burst_left": k - 1})]
             self.n += 1
             key = f"user-{self.rng.randrange(cfg['keys'])}"
             op = self.rng.choice(["set", "set", "set", "get", "delete", "cas"])
@@ -140,7 +194,7 @@ def build(cfg, seed):
             return None
 
     by_name = {nd.name: nd for nd in nodes}
-    clients = [Client(i, c["policy"]) for i, c in enumerate(cfg["clients"])]
+    clients = [Client(i, c["policy"], c.get("burst", 1)) for i, c in enumerate(cfg["clients"])]
 
     def groups(p):
         who = p["who"]
@@ -178,8 +232,9 @@ def build(cfg, seed):
             a = nodes[: (n - 1) // 2] if p["who"] == "minority" else [nodes[-1] if p["who"] == "leader" else nodes[0]]
             faults.add(NetworkPartition([x.name for x in a], [x.name for x in nodes if x not in a],
                                         start=p["start"] / 1000.0, end=p["end"] / 1000.0, asymmetric=p["asym"]))
-    c = cfg["crash"]
-    if c:
+    for c in (cfg["crash"], cfg.get("crash2")):
+        if not c:
+            continue
         nm = nodes[c["node"]].name
         if c["kind"] == "crash":
             faults.add(CrashNode(nm, at=c["start"] / 1000.0, restart_at=c["end"] / 1000.0))
@@ -214,12 +269,18 @@ def build(cfg, seed):
 
         def read():
             lg = nd.log
-            return {"state": nd.state.name, "term": nd.current_term, "leader": nd.current_leader,
+            le = lg.last_entry
+            return {"state": nd.state.name, "term": nd.current_term,
+                    "leaderish": nd.state is RaftState.LEADER, "candidate": nd.state is RaftState.CANDIDATE,
+                    "follower": nd.state is RaftState.FOLLOWER,
+                    "last_entry": None if le is None else [le.index, le.term],
+                    "tail": [[e.index, e.term] for e in lg.entries_from(max(1, lg.last_index - 2))], "leader": nd.current_leader,
                     "is_leader": nd.is_leader, "quorum": nd.quorum_size, "last_index": lg.last_index,
                     "last_term": lg.last_term, "commit": lg.commit_index, "len": len(lg),
                     "log": [[e.index, e.term, e.command] for e in lg.entries_after(0)],
                     "committed": len(lg.committed_entries()), "uncommitted": len(lg.uncommitted_entries()),
-                    "kv": sorted(machines[i].data.items()), "snapshot": sorted(machines[i].snapshot())}
+                    "kv": None if machines[i] is None else sorted(machines[i].data.items()),
+                    "snapshot": None if machines[i] is None else sorted(machines[i].snapshot())}
         return read
 
     obs = {"net": lambda: {"routed": net.events_routed, "no_route": net.events_dropped_no_route,
